@@ -268,6 +268,20 @@ class LatexmkStub(object):
             end = src.index("}%\n", start)
             text = src[start:end]
             w, h = self.measure(text)
+            # like real TeX, the measured size depends on the font size, on the
+            # preamble (fonts, packages) and on the engine chosen by the options
+            head = src[: src.index("\\begin{document}")] if "\\begin{document}" in src else ""
+            first, _, preamble = head.partition("\n")
+            pt = 10.0
+            for cand in ("8pt", "9pt", "10pt", "11pt", "12pt", "14pt", "17pt", "20pt"):
+                if cand in first:
+                    pt = float(cand[:-2])
+            extra = [c for c in command[1:-1] if isinstance(c, str)
+                     and not c.startswith("--outdir=") and c != "--interaction=nonstopmode" and c != "--pdf"]
+            tweak = 1.0 + (int(sha(preamble.strip() + "|" + " ".join(extra))[:6], 16) % 9) / 16.0 \
+                if (preamble.strip().strip("%") or extra) else 1.0
+            w = w * pt / 10.0 * tweak
+            h = h * pt / 10.0
             self.fs.files[os.path.join(outdir, base + ".log")] = (
                 "This is simulated TeX\nLABELWIDTH: %.5fpt\nLABELHEIGHT: %.5fpt\n" % (w, h)
             )
